@@ -289,5 +289,36 @@ def run(ck):
     mcalls = [c for c in walk_local(fn) if isinstance(c, ast.Call) and call_attr(c) == 'map' and 'mapping' in u(c.func.value)]
     ok = len(mcalls) == 1 and u(kwarg(mcalls[0], 'node_match')) == '_old_atomname_match' and u(kwarg(mcalls[0], 'edge_match')) == 'edge_matcher' and u(mcalls[0].args[0]) == molp
     ck.ob('WMC-induced', mod.loc(fn), ok, 'do_mapping matches every block mapping on the whole molecule with the atom-name and same-residue predicates', key='WMC-induced|do_mapping-call')
+    # the predicates the mapping placement uses
+    em = mod.func('edge_matcher')
+    ck.analysed(mod, em)
+    rt = [s_ for s_ in em.body if isinstance(s_, ast.Return)]
+    ok = len(rt) == 1 and u(rt[0].value) == "(node11.get('resid') == node12.get('resid')) == (node21.get('resid') == node22.get('resid'))"
+    defs = {n: u(single_def(em, n)) for n in ('node11', 'node12', 'node21', 'node22')}
+    ok = ok and defs == {'node11': 'graph1.nodes[node11]', 'node12': 'graph1.nodes[node12]', 'node21': 'graph2.nodes[node21]', 'node22': 'graph2.nodes[node22]'}
+    ck.ob('DT-placement-predicates', mod.loc(em), ok, 'a bond of the mapping fits a bond of the molecule when both join atoms of one residue or both join atoms of different residues',
+          key='DT-placement-predicates|edge_matcher')
+    nm = mod.func('node_matcher')
+    c = [x for x in walk_local(nm) if isinstance(x, ast.Call) and call_name(x) == 'attributes_match']
+    ign = try_fold(kwarg(c[0], 'ignore_keys'), default=()) if c else ()
+    ck.ob('DT-placement-predicates', mod.loc(nm), len(c) == 1 and [u(a) for a in c[0].args] == ['node1', 'node2'] and
+          set(ign) == {'atype', 'charge', 'charge_group', 'mass', 'resid', 'replace', '_old_atomname'},
+          'atoms are compared on every attribute the mapping gives, except the force-field specific / numbering ones {}'.format(sorted(ign)), key='DT-placement-predicates|node_matcher')
+    oam = mod.func('_old_atomname_match')
+    ck.analysed(mod, oam)
+    src = u(oam)
+    ck.ob('DT-placement-predicates', mod.loc(oam), "name1 = node1.get('_old_atomname', node1['atomname'])" in src and "name2 = node2.get('_old_atomname', node2['atomname'])" in src
+          and "node1['_name'] = name1" in src and "node2['_name'] = name2" in src and 'return node_matcher(node1, node2)' in src and 'node1 = node1.copy()' in src and 'node2 = node2.copy()' in src,
+          'the atom name compared is the name before a modification renamed it, on copies of the attribute dicts', key='DT-placement-predicates|old_atomname')
+    afn = mod.func('attrs_from_node')
+    ck.ob('DT-placement-predicates', mod.loc(afn), 'return {attr: val for attr, val in node.items() if attr in attrs}' in u(afn) and "node.update(node['replace'])" in u(afn) and 'node = node.copy()' in u(afn),
+          'attributes transferred from an atom are the listed ones, after applying its pending replacements to a copy', key='DT-placement-predicates|attrs_from_node')
+    dmc = mod.cls('DoMapping')
+    drs = method(dmc, 'run_system')
+    ck.analysed(mod, drs)
+    lp = [l for l in drs.body if isinstance(l, ast.For) and u(l.iter) == 'system.molecules']
+    ok = len(lp) == 1 and 'new_molecule = self.run_molecule(molecule)' in u(lp[0]) and 'mols.append(new_molecule)' in u(lp[0]) and 'system.molecules = mols' in u(drs) \
+        and 'system.force_field = self.to_ff' in u(drs)
+    ck.ob('MPT-one-copy', mod.loc(drs), ok, 'every molecule of the system is converted, in system order, and the system is switched to the target force field', key='MPT-one-copy|run_system')
     shared.truthy_zero(ck, [DM, 'vermouth/map_parser.py'])
     ck.assume('that the matcher finds every placement, the residue renumbering arithmetic and modification mapping covers are not decided')
